@@ -7,6 +7,8 @@ import (
 	"os"
 	"os/signal"
 	"syscall"
+
+	"github.com/reeflective/readline/internal/core"
 )
 
 // WatchResize redisplays the interface on terminal resize events.
@@ -15,13 +17,16 @@ func WatchResize(eng *Engine) chan<- bool {
 
 	resizeChannel := make(chan os.Signal, 1)
 	signal.Notify(resizeChannel, syscall.SIGWINCH)
+	verifResizeChan(resizeChannel, done)
 
 	go func() {
 		for {
 			select {
 			case <-resizeChannel:
+				core.YieldPoint("resize.woken")
 				eng.completer.GenerateCached()
 				eng.Refresh()
+				core.YieldPoint("resize.done")
 			case <-done:
 				return
 			}
